@@ -92,7 +92,8 @@ fn stream_case(g: &mut Gen, cfg: &PicCfg) -> Verdict {
         })
     });
     // (a) one reader per picture
-    let mut sa = H263State::new(options(mode, false));
+    let scal = g.bool();
+    let mut sa = H263State::new(options_scal(mode, scal));
     let mut ta = Vec::new();
     for (i, b) in encoded.iter().enumerate() {
         let o = decode_bytes(&mut sa, b);
@@ -102,9 +103,9 @@ fn stream_case(g: &mut Gen, cfg: &PicCfg) -> Verdict {
         ta.push((o, last_digest(&sa)));
     }
     // (b) concatenated, slice source; (c) concatenated, chunked Read source
-    let mut sb = H263State::new(options(mode, false));
+    let mut sb = H263State::new(options_scal(mode, scal));
     let mut rb = H263Reader::from_source(&stream[..]);
-    let mut sc = H263State::new(options(mode, false));
+    let mut sc = H263State::new(options_scal(mode, scal));
     let mut rc = H263Reader::from_source(Chunked::new(&stream, chunk));
     for i in 0..encoded.len() {
         let ob = decode_call(&mut sb, &mut rb);
@@ -158,6 +159,76 @@ fn stream_case(g: &mut Gen, cfg: &PicCfg) -> Verdict {
     Verdict::pass_l(encoded.len() >= 2 && unaligned, fnv64(&stream), labels)
 }
 
+/// More than a mebibyte through ONE reader: many pictures, each made long by a run of MCBPC
+/// stuffing of varying length (so picture ends fall on every bit phase), decoded call after call
+/// and compared with per-picture readers.
+fn long_stream_item(i: u64, acc: &mut Acc) {
+    let (mode, version) = [(Mode::Sorenson, 0u8), (Mode::Sorenson, 1), (Mode::Standard, 0)][(i % 3) as usize];
+    let size = if mode == Mode::Sorenson { Size::Custom8(32, 16) } else { Size::Sqcif };
+    let n_pics = 75usize;
+    let mut pics: Vec<Vec<u8>> = Vec::new();
+    for k in 0..n_pics {
+        let ptype = if k % 4 == 0 { PicType::I } else if mode == Mode::Sorenson && k % 4 == 2 { PicType::D } else { PicType::P };
+        let mut hdr = match mode {
+            Mode::Sorenson => Header::sorenson(version, ptype, size, 5),
+            Mode::Standard => Header::standard(ptype, size, 5),
+        };
+        hdr.tr = k as u8;
+        let (mbw, mbh) = hdr.mb_dims().unwrap();
+        let mut w = crate::bits::BitWriter::new();
+        encode_header(&hdr, &mut w);
+        let mut one = crate::bits::BitWriter::new();
+        if ptype != PicType::I {
+            one.put_bit(false);
+        }
+        one.put_code("000000001");
+        for _ in 0..(15_500 + 37 * k + i as usize) {
+            w.bits.extend_from_slice(&one.bits);
+        }
+        for n in 0..mbw * mbh {
+            let mut mb = if ptype == PicType::I || n % 3 == 0 { Mb::new(MbKind::Intra) } else if n % 3 == 1 { Mb::not_coded() } else { Mb::new(MbKind::Inter) };
+            for b in 0..6 {
+                mb.blocks[b].dc = 30 + ((n * 6 + b + k) % 190) as u8;
+                if mb.blocks[b].dc == 128 {
+                    mb.blocks[b].dc = 131;
+                }
+            }
+            if mb.kind != MbKind::NotCoded {
+                mb.blocks[(k + n) % 6].events = vec![Event { run: (k % 9) as u8, level: 2 + (n as i16 % 5), force_escape: k % 2 == 0, wide: false }];
+                mb.mvd[0] = ((k % 7) as i8 - 3, (n % 5) as i8 - 2);
+            }
+            encode_mb(&mb, &hdr, &mut w);
+        }
+        pics.push(w.to_bytes());
+    }
+    let stream: Vec<u8> = pics.iter().flatten().copied().collect();
+    let mut sa = H263State::new(options_scal(mode, i % 2 == 1));
+    let mut sb = H263State::new(options_scal(mode, i % 2 == 1));
+    let mut rb = H263Reader::from_source(&stream[..]);
+    for (k, p) in pics.iter().enumerate() {
+        let oa = decode_bytes(&mut sa, p);
+        let ob = decode_call(&mut sb, &mut rb);
+        acc.count(true);
+        if !oa.is_ok() || oa != ob || last_digest(&sa) != last_digest(&sb) {
+            acc.fail(
+                json!({"kind":"params","long_stream":i}),
+                format!(
+                    "picture {} of {} in one reader ({} bytes consumed so far of {}): {} / {:016x}, own reader {} / {:016x}",
+                    k, n_pics, pics[..k].iter().map(|x| x.len()).sum::<usize>(), stream.len(), ob.short(), last_digest(&sb), oa.short(), last_digest(&sa)
+                ),
+            );
+            return;
+        }
+    }
+    let rest = drain_bits(&mut rb);
+    if rest.len() > 7 || rest.iter().any(|b| *b) {
+        acc.fail(json!({"kind":"params","long_stream":i}), format!("after {} pictures ({} bytes) the reader still holds {} bits", n_pics, stream.len(), rest.len()));
+    }
+    if i == 0 {
+        acc.sample(|| json!({"pictures": n_pics, "stream_bytes": stream.len(), "mode": format!("{:?}", mode)}));
+    }
+}
+
 pub fn cfg_for(tier: Tier) -> PicCfg {
     match tier {
         Tier::Quick => PicCfg { max_dim: 96, max_fixed_mbs: 48, budget: 900, extreme_aspect: false, ..PicCfg::quick() },
@@ -170,6 +241,7 @@ pub fn run(ctx: &Ctx) -> i32 {
     let mut reports = vec![super::regression_suite(ctx)];
     let cases = ctx.tier.pick(60_000u64, 500_000u64);
     reports.push(tape_suite(ctx, "stream_vs_own_reader", cases, 8192, &move |g| stream_case(g, &cfg)));
+    reports.push(exhaustive_suite(ctx, "long_streams", ctx.tier.pick(6u64, 24u64), &long_stream_item));
     finish(
         ctx,
         reports,
@@ -183,6 +255,14 @@ pub fn run(ctx: &Ctx) -> i32 {
 }
 
 pub fn replay(suite: &str, case: &Value) -> Option<Verdict> {
+    if suite == "long_streams" {
+        let mut acc = Acc::default();
+        long_stream_item(case["long_stream"].as_u64()?, &mut acc);
+        return Some(match acc.failure {
+            Some((_, _, m, _)) => Verdict::fail(m),
+            None => Verdict::pass(true, 0),
+        });
+    }
     match suite {
         "stream_vs_own_reader" => {
             let tape = super::tape_of(case)?;
